@@ -134,22 +134,89 @@ theorem kernel_wiring :
     Gen.elev_call_args = "refined, corr, height" := by
   refine ⟨rfl, rfl⟩
 
-/-- **The refinement of the model is the `refine_center` / `center_of_mass` of the source** as
-translated on this run (loops → sums, slices → sub-images): clip of the radius, guard, cut-out,
-minimum subtraction, first moments over the total, re-anchoring. -/
+/-- **`Model.refineCenter` is the generated `refine_center` (which calls the generated
+`center_of_mass`)**: same clip, same guard, same cut-out, same minimum subtraction, same moments. -/
 theorem refine_center_is_generated (corr : ℤ → ℤ → ℚ) (h w cy cx r : ℤ) :
-    refineCenter corr h w cy cx r = Gen.refine_center corr h w cy cx r :=
-  refineCenter_eq_gen corr h w cy cx r
+    refineCenter corr h w cy cx r = Gen.refine_center corr h w cy cx r := by
+  unfold refineCenter Gen.refine_center Gen.center_of_mass Gen.refine_r Gen.refine_guard Gen.cut_lo Gen.cut_hi
+    Gen.refined_coord
+  simp only [decide_eq_true_eq]
 
-/-- **The elevation of the model is the square of the `peak_elevation` of the source** as translated
-on this run (running minimum from `inf` of `(height − corrmap[y, x]) / dist` over the pixels with
-`dist ≥ r_min`, floored at 0), for every function `sqrt` that squares back on non-negative rationals;
-`height` is an upper bound of the map (it is the maximum). -/
+/-- the candidate slopes of the generated kernel (before squaring) -/
+def genCands (sqrt : ℚ → ℚ) (corr : ℤ → ℤ → ℚ) (h w : ℤ) (py px height rmin_ : ℚ) : List ℚ :=
+  (irange h).flatMap fun (y : ℤ) => (irange w).filterMap fun (x : ℤ) =>
+    if (sqrt (((y : ℚ) - py) ^ 2 + ((x : ℚ) - px) ^ 2) ≥ rmin_) ∧ True
+    then some ((height - corr y x) / sqrt (((y : ℚ) - py) ^ 2 + ((x : ℚ) - px) ^ 2)) else none
+
+theorem gen_peak_elevation_eq (sqrt : ℚ → ℚ) (corr : ℤ → ℤ → ℚ) (h w : ℤ) (py px height rmin_ : ℚ) :
+    Gen.peak_elevation corr h w sqrt py px height rmin_ = optMax0 (minOpt (genCands sqrt corr h w py px height rmin_)) := rfl
+
+/-- **`Model.elevation2` is the square of the generated `peak_elevation`** for any function `sqrt`
+that is a square root on the non-negative rationals that occur (`sqrt t ≥ 0`, `sqrt t · sqrt t = t`),
+when `height` is an upper bound of the map (it is its maximum).  The model compares squares because
+the rationals have no square roots; this theorem is what licenses that. -/
 theorem peak_elevation_is_generated (sqrt : ℚ → ℚ) (hs : ∀ t : ℚ, 0 ≤ t → 0 ≤ sqrt t ∧ sqrt t * sqrt t = t)
     (corr : ℤ → ℤ → ℚ) (h w : ℤ) (py px height : ℚ)
     (hmax : ∀ y x : ℤ, 0 ≤ y → y < h → 0 ≤ x → x < w → corr y x ≤ height) :
-    (Gen.peak_elevation corr h w sqrt py px height Gen.elev_rmin).map (· ^ 2) = elevation2 corr h w py px height :=
-  elevation2_eq_gen_sq sqrt hs corr h w py px height hmax
+    (Gen.peak_elevation corr h w sqrt py px height Gen.elev_rmin).map (· ^ 2) = elevation2 corr h w py px height := by
+  rw [gen_peak_elevation_eq, elevation2_eq_minOpt]
+  have hr : (0 : ℚ) ≤ Gen.elev_rmin := by unfold Gen.elev_rmin; norm_num
+  have hrpos : (0 : ℚ) < Gen.elev_rmin := by unfold Gen.elev_rmin; norm_num
+  -- cell-wise correspondence
+  have hcell : ∀ y x : ℤ, 0 ≤ y → y < h → 0 ≤ x → x < w →
+      ((if (sqrt (((y : ℚ) - py) ^ 2 + ((x : ℚ) - px) ^ 2) ≥ Gen.elev_rmin) ∧ True
+        then some ((height - corr y x) / sqrt (((y : ℚ) - py) ^ 2 + ((x : ℚ) - px) ^ 2)) else none : Option ℚ).map (· ^ 2)
+        = (if Gen.elev_rmin * Gen.elev_rmin ≤ ((y : ℚ) - py) ^ 2 + ((x : ℚ) - px) ^ 2
+            then some ((height - corr y x) ^ 2 / (((y : ℚ) - py) ^ 2 + ((x : ℚ) - px) ^ 2)) else none))
+      ∧ ∀ v, (if (sqrt (((y : ℚ) - py) ^ 2 + ((x : ℚ) - px) ^ 2) ≥ Gen.elev_rmin) ∧ True
+        then some ((height - corr y x) / sqrt (((y : ℚ) - py) ^ 2 + ((x : ℚ) - px) ^ 2)) else none : Option ℚ) = some v → 0 ≤ v := by
+    intro y x hy0 hy1 hx0 hx1
+    set d2 := ((y : ℚ) - py) ^ 2 + ((x : ℚ) - px) ^ 2 with hd2
+    have hd2nn : 0 ≤ d2 := by positivity
+    obtain ⟨hsn, hss⟩ := hs d2 hd2nn
+    have hiff : (sqrt d2 ≥ Gen.elev_rmin ∧ True) ↔ Gen.elev_rmin * Gen.elev_rmin ≤ d2 := by
+      constructor
+      · rintro ⟨hge, _⟩
+        calc Gen.elev_rmin * Gen.elev_rmin ≤ sqrt d2 * sqrt d2 := mul_le_mul hge hge hr hsn
+          _ = d2 := hss
+      · intro hle
+        refine ⟨?_, trivial⟩
+        by_contra hlt
+        push Not at hlt
+        have : sqrt d2 * sqrt d2 < Gen.elev_rmin * Gen.elev_rmin := mul_lt_mul'' hlt hlt hsn hsn
+        rw [hss] at this
+        linarith
+    by_cases hc : Gen.elev_rmin * Gen.elev_rmin ≤ d2
+    · have hc' := hiff.mpr hc
+      rw [if_pos hc', if_pos hc]
+      have hpos : 0 < sqrt d2 := lt_of_lt_of_le hrpos hc'.1
+      refine ⟨?_, ?_⟩
+      · simp only [Option.map_some]
+        congr 1
+        rw [div_pow, sq (sqrt d2), hss]
+      · intro v hv
+        rw [← Option.some.inj hv]
+        exact div_nonneg (by linarith [hmax y x hy0 hy1 hx0 hx1]) (le_of_lt hpos)
+    · have hc' : ¬ (sqrt d2 ≥ Gen.elev_rmin ∧ True) := fun hh => hc (hiff.mp hh)
+      rw [if_neg hc', if_neg hc]
+      exact ⟨rfl, fun v hv => by cases hv⟩
+  have hnonneg : ∀ v ∈ genCands sqrt corr h w py px height Gen.elev_rmin, 0 ≤ v := by
+    intro v hv
+    unfold genCands at hv
+    simp only [List.mem_flatMap, List.mem_filterMap, mem_irange] at hv
+    obtain ⟨y, hy, x, hx, hvx⟩ := hv
+    exact (hcell y x hy.1 hy.2 hx.1 hx.2).2 v hvx
+  have hmap : (genCands sqrt corr h w py px height Gen.elev_rmin).map (· ^ 2) = elevCands corr h w py px height := by
+    unfold genCands elevCands
+    rw [List.map_flatMap]
+    apply List.flatMap_congr
+    intro y hy
+    rw [List.map_filterMap]
+    apply List.filterMap_congr
+    intro x hx
+    rw [mem_irange] at hy hx
+    exact (hcell y x hy.1 hy.2 hx.1 hx.2).1
+  rw [minOpt_sq _ hnonneg, hmap]
 
 /-- a 1-D convolution with a delta at `q` reads the mask at `(k − q) mod n` -/
 theorem conv_delta (mask : ℤ → ℚ) (n q k : ℤ) (hn : 0 < n) (hq : 0 ≤ q ∧ q < n) :
